@@ -341,7 +341,10 @@ class NoMutate(Unit):
     max_violations = 1
 
     def patches(self):
-        return standard_patches(concretize_int=True)
+        import pulsarbat.transforms.dedispersion as D
+        from .C05 import RecExp
+        # (the chirp values are irrelevant here: exp() in the dedispersion module returns fresh unit-modulus symbols, as in C05)
+        return standard_patches(concretize_int=True) + [(D, "np", RecExp())]
 
     def __init__(self, opname):
         self.opname = opname
